@@ -32,7 +32,7 @@ LEVEL = "proof"
 FACTS = ["job_status"]
 TRUSTED = [
     "real time: the deadline itself is not observed; two sentinels logged 0.4 s and 1.9 s after it: a job started before the first and not returned before the second was running across the deadline and must have been told to cancel before the second (1.5 s of slack for scheduling latency); "
-    "a job finishing within that window may legally end DONE or CANCELLED; an early sentinel due 1.5 s BEFORE the deadline (only when the budget is 2 s; a timer of the evaluator's own event loop, so ordered with the wait_for timeouts by their deadlines, not by the load) must precede every CANCELLING write of that search() call; the second sentinel is logged after two round trips through the evaluator's event loop (when it runs), so a freeze of the whole machine across the deadline cannot put it before the CANCELLING writes that were due",
+    "a job finishing within that window may legally end DONE or CANCELLED; an early sentinel due 0.5 s BEFORE the deadline (a timer of the evaluator's own event loop, so ordered with the wait_for timeouts by their deadlines, not by the load) must precede every CANCELLING write of that search() call; the second sentinel is logged after two round trips through the evaluator's event loop (when it runs), so a freeze of the whole machine across the deadline cannot put it before the CANCELLING writes that were due",
     "asyncio.wait_for / shield / the thread and process pools behave as documented; status reads and writes are atomic under the harness lock; "
     "the wrappers on the evaluator instance (submit, gather, close, _update_job_when_done, _on_done) only log and delegate",
     "the acceptor places the two unobservable events as late as possible (budget expiry just before the first CANCELLING it must explain, the stop test right after gather returns); "
@@ -228,16 +228,16 @@ def drive(case, evaluator, emit, snapshot, hooks):
             t.daemon = True
             t.start()
         timers.extend(ts)
-        if t_budget >= 2:
-            # the early sentinel is a timer of the evaluator's own event loop, set at the first submit of the call: the loop fires
-            # its timers in the order of their deadlines, so it precedes the wait_for timeouts of a fresh budget whatever the load
-            at = time.time() + t_budget - 1.5
+        # the early sentinel is a timer of the evaluator's own event loop, due 0.5 s before the deadline and set at the first submit
+        # of the call: the loop fires its timers in the order of their deadlines, so it precedes the wait_for timeouts of a fresh
+        # budget whatever the load (the budget starts after this point, so the margin is at least 0.5 s)
+        at = time.time() + t_budget - 0.5
 
-            def after_submit():
-                hooks["after_submit"] = None
-                evaluator.loop.call_later(max(0.0, at - time.time()), emit, 0, K_S0, 0)
+        def after_submit():
+            hooks["after_submit"] = None
+            evaluator.loop.call_later(max(0.0, at - time.time()), emit, 0, K_S0, 0)
 
-            hooks["after_submit"] = after_submit
+        hooks["after_submit"] = after_submit
 
     def rows_of_df(df):
         out = []
@@ -473,6 +473,8 @@ def gen(count, pairs):
             mode, backend = pairs[i % len(pairs)]
             c = dict(timeout=T, workers=W, backend=backend, plan=plan, mode=mode, search=rng.choice(["random", "cbo"]))
             longs = [p for p in plan if p[0] == "long"]
+            if mode in ("search", "two_calls") and not any(p[4] == "zero" for p in longs):
+                longs[0][4] = "zero"  # a cancelled job that returns a falsy value
             if mode == "evaluator":
                 c["timeout"] = 2  # a job queued at the deadline with a stale budget would run 2 s more: visible beyond the slack
                 c["njobs"] = W + rng.randint(1, 2 * W + 1)
@@ -482,13 +484,18 @@ def gen(count, pairs):
                 # enough budget left at the expiry that a search which keeps submitting is still doing so 2 s later
                 c["max_evals"] = 400
                 c["plan"] = longs
-            elif mode in ("search_strict", "search_max"):
-                c["max_evals"] = rng.choice([W + 1, 2 * W + 1, 3]) if W > 1 else rng.choice([2, 3])
+            elif mode == "search_strict":
+                # the strict budget is hit in the middle of a batch (max_evals < workers: in the very first one): the loop is left
+                # through MaximumJobsSpawnReached with tasks that have not started yet
+                c["workers"] = W = rng.choice([2, 4])
+                c["max_evals"] = rng.choice([W - 1, W - 1, W + 1, 2 * W + 1])
                 c["plan"] = longs  # every job runs until told to cancel
+            elif mode == "search_max":
+                c["max_evals"] = rng.choice([W + 1, 2 * W + 1, 3]) if W > 1 else rng.choice([2, 3])
+                c["plan"] = longs
             elif mode == "two_calls":
-                # the second call must get a fresh budget: 2 s, with the early sentinel 0.5 s after its start
+                # the second call must get a fresh budget (early sentinel 0.5 s before its deadline)
                 c["first_timeout"] = 1
-                c["timeout"] = 2
                 c["plan"] = [p for p in plan if not (p[0] != "long" and p[1] > 0.5)]
             elif mode == "early_close":
                 # job 0 returns as soon as it is told; the others keep working 0.8 s in CANCELLING: close() finds them there
